@@ -151,14 +151,19 @@ class RelationshipResolver:
             return None
 
         relationship = relationships.get(attribute_name)
-        if relationship is not None:
-            return relationship
+        if relationship is None:
+            for rel in relationships:
+                if rel.key == attribute_name:
+                    relationship = rel
+                    break
 
-        for rel in relationships:
-            if rel.key == attribute_name:
-                return rel
+        if relationship is not None and relationship.uselist:
+            # a collection has no single foreign key column that could stand for it
+            raise AttributeResolutionError(
+                f"'{attribute_name}' is a collection; only to-one relationships can be translated."
+            )
 
-        return None
+        return relationship
 
 
 def as_collection(value: Any) -> Optional[List[Any]]:
@@ -466,6 +471,9 @@ class EQLTranslator:
         :return: SQLAlchemy expression
         """
         column = self.translate_attribute(query)
+        if isinstance(column.type, sqlalchemy.TypeDecorator):
+            # the stored form says nothing about the truth value of the object it stands for: only None is falsy
+            return column.is_not(None)
         if isinstance(column.type, sqlalchemy.String):
             # a text column as condition is cast to a number by the database; bool(str) is "not empty"
             return column != ""
